@@ -510,7 +510,13 @@ struct Input {
     id: u64,
     text: String,
     pred_len: Option<usize>,
-    origin: Value,
+    /// the input line without its text, as compact JSON (kept as a string: millions of inputs)
+    origin: String,
+}
+impl Input {
+    fn origin(&self) -> Value {
+        serde_json::from_str(&self.origin).unwrap_or(Value::Null)
+    }
 }
 
 #[derive(Default)]
@@ -572,21 +578,30 @@ fn cmd_run(args: &[String]) {
 
     let mut inputs = vec![];
     let mut bad_inputs = vec![];
-    for (i, v) in read_ndjson(inputs_path).into_iter().enumerate() {
-        let id = v["id"].as_u64().unwrap_or(i as u64);
-        if exclude.contains(&id) {
-            continue;
-        }
-        match parser_gen::concretise(&v) {
-            Ok((text, pred_len)) => {
-                let mut origin = v.clone();
-                if let Some(m) = origin.as_object_mut() {
-                    m.remove("text");
-                }
-                inputs.push(Input { id, text, pred_len, origin });
+    {
+        use std::io::BufRead;
+        let f = std::fs::File::open(inputs_path).unwrap_or_else(|e| panic!("open {inputs_path}: {e}"));
+        for (i, line) in std::io::BufReader::new(f).lines().enumerate() {
+            let line = line.unwrap();
+            if line.trim().is_empty() {
+                continue;
             }
-            Err(e) => bad_inputs.push(format!("{id}: {e}")),
+            let mut v: Value = serde_json::from_str(&line).unwrap_or_else(|e| panic!("bad json line {i}: {e}"));
+            let id = v["id"].as_u64().unwrap_or(i as u64);
+            if exclude.contains(&id) {
+                continue;
+            }
+            match parser_gen::concretise(&v) {
+                Ok((text, pred_len)) => {
+                    if let Some(m) = v.as_object_mut() {
+                        m.remove("text");
+                    }
+                    inputs.push(Input { id, text, pred_len, origin: serde_json::to_string(&v).unwrap() });
+                }
+                Err(e) => bad_inputs.push(format!("{id}: {e}")),
+            }
         }
+        inputs.shrink_to_fit();
     }
     if !bad_inputs.is_empty() {
         eprintln!("parse_trace: unusable input lines: {:?}", &bad_inputs[..bad_inputs.len().min(5)]);
@@ -598,7 +613,8 @@ fn cmd_run(args: &[String]) {
     let results = Arc::new(Mutex::new(Vec::<Value>::new()));
     // abstract trace -> (count, first id, events)
     let traces = Arc::new(Mutex::new(HashMap::<(u64, u64), (usize, u64, usize)>::new()));
-    let trace_store = Arc::new(Mutex::new(Vec::<(u64, Vec<Value>)>::new()));
+    // (first input id, events as NDJSON text, #lex, #leaf, non-trivial) - kept as text: ~10x smaller than Values
+    let trace_store = Arc::new(Mutex::new(Vec::<(u64, String, usize, usize, bool)>::new()));
     // per-thread in-flight marker: (input index + 1, start millis since t0)
     let t0 = Instant::now();
     let inflight: Arc<Vec<(AtomicUsize, AtomicU64)>> =
@@ -712,7 +728,7 @@ fn cmd_run(args: &[String]) {
                     }
                     for (kind, stage, detail) in &o.problems {
                         results.lock().unwrap().push(json!({"id": inp.id, "kind": kind, "stage": stage, "detail": detail,
-                            "signature": o.signature, "text": inp.text, "origin": inp.origin}));
+                            "signature": o.signature, "text": inp.text, "origin": inp.origin()}));
                     }
                     // trace (deduplicated on the abstract content)
                     if trace_max > 0 && !o.lex.is_empty() && o.lex.len() <= trace_max {
@@ -731,9 +747,19 @@ fn cmd_run(args: &[String]) {
                         match m.get_mut(&key) {
                             Some(e) => e.0 += 1,
                             None => {
+                                let nontrivial = ev.iter().any(|e| {
+                                    e["e"] == "leaf" && (e["c"] == "skip" || e["c"] == "miss" || e["d"].as_u64().unwrap_or(0) > 0)
+                                });
+                                let nl = ev.iter().filter(|e| e["e"] == "lex").count();
+                                let nf = ev.iter().filter(|e| e["e"] == "leaf").count();
+                                let mut text = String::new();
+                                for e in &ev {
+                                    text.push_str(&serde_json::to_string(e).unwrap());
+                                    text.push('\n');
+                                }
                                 let mut ts = trace_store.lock().unwrap();
                                 m.insert(key, (1, inp.id, ts.len()));
-                                ts.push((inp.id, ev));
+                                ts.push((inp.id, text, nl, nf, nontrivial));
                             }
                         }
                         stats.traced.fetch_add(1, Ordering::Relaxed);
@@ -764,7 +790,7 @@ fn cmd_run(args: &[String]) {
                     n_stuck += 1;
                     let inp = &inputs[i - 1];
                     results.lock().unwrap().push(json!({"id": inp.id, "kind": "timeout_suspect", "stage": mode, "detail": format!("no result within {budget_ms} ms"),
-                        "text": inp.text, "origin": inp.origin}));
+                        "text": inp.text, "origin": inp.origin()}));
                 }
             }
         }
@@ -781,7 +807,7 @@ fn cmd_run(args: &[String]) {
         w.write(r);
     }
     w.finish();
-    let mut tw = NdjsonWriter::create(&format!("{outdir}/traces.ndjson"));
+    let mut tw = std::io::BufWriter::new(std::fs::File::create(format!("{outdir}/traces.ndjson")).unwrap());
     let m = traces.lock().unwrap();
     let ts = trace_store.lock().unwrap();
     let mut counts: HashMap<usize, usize> = HashMap::new();
@@ -793,20 +819,17 @@ fn cmd_run(args: &[String]) {
     let mut distinct_nontrivial = 0usize;
     let mut n_events = 0usize;
     for (seq, i) in order.iter().enumerate() {
-        let (id, ev) = &ts[*i];
-        let nontrivial = ev.iter().any(|e| e["e"] == "leaf" && (e["c"] == "skip" || e["c"] == "miss" || e["d"].as_u64().unwrap_or(0) > 0));
-        if nontrivial {
+        let (id, text, nl, nf, nontrivial) = &ts[*i];
+        if *nontrivial {
             distinct_nontrivial += 1;
         }
-        let nl = ev.iter().filter(|e| e["e"] == "lex").count();
-        let nf = ev.iter().filter(|e| e["e"] == "leaf").count();
-        tw.write(&json!({"e":"reset","id":seq + 1,"input":id,"n":counts.get(i).copied().unwrap_or(1),"nl":nl,"nf":nf}));
-        for e in ev {
-            tw.write(e);
-        }
-        n_events += ev.len() + 1;
+        let reset = json!({"e":"reset","id":seq + 1,"input":id,"n":counts.get(i).copied().unwrap_or(1),"nl":nl,"nf":nf});
+        writeln!(tw, "{}", serde_json::to_string(&reset).unwrap()).unwrap();
+        tw.write_all(text.as_bytes()).unwrap();
+        n_events += nl + nf + 2;
     }
-    tw.finish();
+    tw.flush().unwrap();
+    drop(tw);
     let s = &stats;
     let ld = |a: &AtomicUsize| a.load(Ordering::Relaxed);
     let summary = json!({
